@@ -333,7 +333,10 @@ func rawList(r Results) []mrec {
 // canon orders the matches totally: the library's own order (confidence desc, start asc, end desc)
 // refined by (type, name, variant, lines) for ties, whose relative order is the subject of C04 only.
 func canon(r Results) []mrec {
-	out := rawList(r)
+	return canonSort(rawList(r))
+}
+
+func canonSort(out []mrec) []mrec {
 	sort.SliceStable(out, func(i, j int) bool {
 		a, b := out[i], out[j]
 		if a.Conf != b.Conf {
@@ -395,7 +398,7 @@ func shift(in []mrec, dTok, dLine int) []mrec {
 		}
 		out[i] = m
 	}
-	return out
+	return canonSort(out)
 }
 
 func equalRecs(a, b []mrec) bool {
@@ -636,4 +639,179 @@ func minInt(a, b int) int {
 		return a
 	}
 	return b
+}
+
+// ---------------------------------------------------------------- input recipes
+
+// seg is one segment of a generated input.
+type seg struct {
+	Kind      string `json:"k"` // doc | scen | oov | raw
+	Doc       int    `json:"d,omitempty"`
+	Edits     []edit `json:"e,omitempty"`
+	TruncHead int    `json:"th,omitempty"`
+	TruncTail int    `json:"tt,omitempty"`
+	Words     int    `json:"w,omitempty"`
+	Lines     int    `json:"l,omitempty"`
+	Raw       []byte `json:"raw,omitempty"`
+}
+
+type recipe struct {
+	Segs []seg `json:"segs"`
+}
+
+func (r recipe) build(c *Classifier) []byte {
+	var buf bytes.Buffer
+	for i, s := range r.Segs {
+		var b []byte
+		switch s.Kind {
+		case "doc":
+			a := assets()
+			b = applyEdits(c, a[((s.Doc%len(a))+len(a))%len(a)].Content, s.Edits, s.TruncHead, s.TruncTail)
+		case "scen":
+			sc := scenarios()
+			b = applyEdits(c, sc[((s.Doc%len(sc))+len(sc))%len(sc)], s.Edits, s.TruncHead, s.TruncTail)
+		case "oov":
+			b = []byte(oovBlock(c, 100000+1000*i, s.Words, s.Lines))
+		case "raw":
+			b = s.Raw
+		}
+		buf.Write(b)
+		if s.Kind != "raw" && len(b) > 0 && b[len(b)-1] != '\n' {
+			buf.WriteByte('\n')
+		}
+	}
+	return buf.Bytes()
+}
+
+func (r recipe) describe() string {
+	var parts []string
+	for _, s := range r.Segs {
+		switch s.Kind {
+		case "doc":
+			a := assets()
+			parts = append(parts, fmt.Sprintf("doc(%s,edits=%d,trunc=%d/%d)", a[((s.Doc%len(a))+len(a))%len(a)].key(), len(s.Edits), s.TruncHead, s.TruncTail))
+		case "scen":
+			parts = append(parts, fmt.Sprintf("scenario(%d,edits=%d,trunc=%d/%d)", s.Doc, len(s.Edits), s.TruncHead, s.TruncTail))
+		case "oov":
+			parts = append(parts, fmt.Sprintf("oov(%dw/%dl)", s.Words, s.Lines))
+		case "raw":
+			parts = append(parts, fmt.Sprintf("raw(%d bytes)", len(s.Raw)))
+		}
+	}
+	return strings.Join(parts, " + ")
+}
+
+// docs returns the asset indices used by the recipe.
+func (r recipe) docs() []int {
+	var out []int
+	for _, s := range r.Segs {
+		if s.Kind == "doc" {
+			out = append(out, s.Doc)
+		}
+	}
+	return out
+}
+
+// genDocSeg draws a (possibly edited / truncated) corpus document or scenario segment.
+func genDocSeg(t *rapid.T, thr float64, allowScen bool) seg {
+	s := seg{Kind: "doc"}
+	var text []byte
+	if allowScen && lib.IntN(t, 0, 5, "useScenario") == 0 {
+		s.Kind = "scen"
+		s.Doc = lib.IntN(t, 0, len(scenarios())-1, "scenario")
+		text = scenarios()[s.Doc]
+	} else {
+		s.Doc = lib.IntN(t, 0, len(assets())-1, "doc")
+		text = assets()[s.Doc].Content
+	}
+	nw := parseText(text).nwords()
+	maxPermille := int(2 * (1 - thr) * 1000)
+	if maxPermille < 20 {
+		maxPermille = 20
+	}
+	switch lib.Weighted(t, []int{25, 55, 10, 10}, "segShape") {
+	case 0: // pristine
+	case 1:
+		s.Edits = genEdits(t, nw, maxPermille)
+	case 2:
+		s.TruncHead = lib.IntN(t, 1, 1+nw*maxPermille/2000, "truncHead")
+		s.Edits = genEdits(t, nw, maxPermille/4)
+	case 3:
+		s.TruncTail = lib.IntN(t, 1, 1+nw*maxPermille/2000, "truncTail")
+		s.Edits = genEdits(t, nw, maxPermille/4)
+	}
+	return s
+}
+
+// genRecipe draws a license-bearing input: one document, a document in OOV context, or a concatenation.
+func genRecipe(t *rapid.T, thr float64) recipe {
+	var r recipe
+	switch lib.Weighted(t, []int{45, 25, 30}, "recipeShape") {
+	case 0:
+		r.Segs = []seg{genDocSeg(t, thr, true)}
+	case 1:
+		r.Segs = []seg{{Kind: "oov", Words: lib.IntN(t, 1, 60, "oovW"), Lines: lib.IntN(t, 1, 6, "oovL")}, genDocSeg(t, thr, true),
+			{Kind: "oov", Words: lib.IntN(t, 1, 60, "oovW"), Lines: lib.IntN(t, 1, 6, "oovL")}}
+	case 2:
+		n := lib.IntN(t, 2, 4, "nsegs")
+		for i := 0; i < n; i++ {
+			if i > 0 && lib.IntN(t, 0, 2, "sep") > 0 {
+				r.Segs = append(r.Segs, seg{Kind: "oov", Words: lib.IntN(t, 1, 30, "oovW"), Lines: lib.IntN(t, 1, 4, "oovL")})
+			}
+			r.Segs = append(r.Segs, genDocSeg(t, thr, false))
+		}
+	}
+	return r
+}
+
+// recipeClasses labels a recipe for the distribution histogram.
+func recipeClasses(r recipe) []string {
+	cls := map[string]bool{}
+	nd := 0
+	for _, s := range r.Segs {
+		switch s.Kind {
+		case "doc", "scen":
+			nd++
+			if s.Kind == "scen" {
+				cls["scenario-file"] = true
+			}
+			if len(s.Edits) > 0 {
+				cls["edited"] = true
+			}
+			if s.TruncHead > 0 {
+				cls["truncated-head"] = true
+			}
+			if s.TruncTail > 0 {
+				cls["truncated-tail"] = true
+			}
+		case "oov":
+			cls["oov-context"] = true
+		}
+	}
+	if nd > 1 {
+		cls["concatenation"] = true
+	}
+	var out []string
+	for k := range cls {
+		out = append(out, k)
+	}
+	sort.Strings(out)
+	return out
+}
+
+// corpusForRecipe: full corpus (threshold from the shard's menu) or a small corpus containing the documents used.
+func genCorpusThr(t *rapid.T, lo float64, fullWeight int) (corpusSel, float64) {
+	if lib.IntN(t, 0, 9, "corpusKind") < fullWeight {
+		return corpusSel{Full: true}, fullThreshold(t, lo)
+	}
+	return corpusSel{}, genThreshold(t, lo) // documents are filled in by the caller
+}
+
+func smallCorpusAround(t *rapid.T, must []int) corpusSel {
+	sel := corpusSel{Docs: append([]int{}, must...)}
+	n := lib.IntN(t, 1, 8, "corpusExtra")
+	for i := 0; i < n; i++ {
+		sel.Docs = append(sel.Docs, lib.IntN(t, 0, len(assets())-1, "corpusDoc"))
+	}
+	return sel
 }
